@@ -278,6 +278,9 @@ theorem findBestMove_restrict' (qfuel : Nat) (p : P) (hp : I p) (D : Nat) (limit
 
 /-! ### the reference values -/
 
+theorem qRelevant_restrict (p c : {p // I p}) :
+    Spec.qRelevant (G.restrict I hm hq) p c = Spec.qRelevant G p.1 c.1 := rfl
+
 theorem Q_restrict (n : Nat) : ∀ (p : {p // I p}), Spec.Q (G.restrict I hm hq) n p = Spec.Q G n p.1 := by
   induction n with
   | zero => intro p; rfl
@@ -285,15 +288,21 @@ theorem Q_restrict (n : Nat) : ∀ (p : {p // I p}), Spec.Q (G.restrict I hm hq)
     intro p
     have e : Spec.Q (G.restrict I hm hq) (n + 1) p =
         if (qList G p.1).isEmpty && G.inCheck p.1 then some (-CHECKMATE_SCORE)
-        else (qList G p.1).foldl (foldStep (fun m => Spec.Q (G.restrict I hm hq) n ((G.restrict I hm hq).play p m)))
+        else (qList G p.1).foldl
+          (relStep (fun m => Spec.Q (G.restrict I hm hq) n ((G.restrict I hm hq).play p m))
+            (qRel (G.restrict I hm hq) p) (n == 0))
           (some (G.eval p.1)) := Q_succ (G.restrict I hm hq) n p
     rw [e, Q_succ]
     by_cases hc : ((qList G p.1).isEmpty && G.inCheck p.1) = true
     · rw [if_pos hc, if_pos hc]
     · rw [if_neg hc, if_neg hc]
-      apply foldl_congr
-      intro m hmem
-      rw [ih, play_val G I hm hq p m (mem_qList G hmem)]
+      apply relFold_congr
+      · intro m hmem
+        show Spec.qRelevant (G.restrict I hm hq) p ((G.restrict I hm hq).play p m) =
+          Spec.qRelevant G p.1 (G.play p.1 m)
+        rw [qRelevant_restrict, play_val G I hm hq p m (mem_qList G hmem)]
+      · intro m hmem
+        rw [ih, play_val G I hm hq p m (mem_qList G hmem)]
 
 theorem V_restrict (qf d : Nat) : ∀ (p : {p // I p}), Spec.V (G.restrict I hm hq) qf d p = Spec.V G qf d p.1 := by
   induction d with
